@@ -1,5 +1,6 @@
 # MIT License: Copyright (c) 2021 Lorenzo Loconte, Gennaro Gala
 
+import os
 from enum import Enum
 from collections import deque
 from typing import Optional, Union, Type, List, NamedTuple
@@ -13,6 +14,11 @@ from deeprob.spn.structure.node import Node, Sum, Product, assign_ids
 from deeprob.spn.learning.leaf import LearnLeafFunc, get_learn_leaf_method, learn_naive_factorization
 from deeprob.spn.learning.splitting.rows import SplitRowsFunc, get_split_rows_method, split_rows_clusters
 from deeprob.spn.learning.splitting.cols import SplitColsFunc, get_split_cols_method, split_cols_clusters
+
+
+#: Verification hook (guarded by DEEPROB_KIT_VERIF=1): when a list is installed here, learn_spn appends
+#: one record per processed task (operation, number of rows, scope, zero-variance flags).
+_VERIF_TRACE = None
 
 
 class OperationKind(Enum):
@@ -145,6 +151,10 @@ def learn_spn(
         # Defaults to columns splitting
         else:
             op = OperationKind.SPLIT_COLS
+
+        if _VERIF_TRACE is not None and os.environ.get('DEEPROB_KIT_VERIF') == '1':
+            _VERIF_TRACE.append((op.name, int(n_samples), list(task.scope), zero_var_idx.tolist(),
+                                 bool(task.no_cols_split), bool(task.no_rows_split), bool(task.is_first)))
 
         if op == OperationKind.REM_FEATURES:
             node = Product(task.scope)
